@@ -40,32 +40,32 @@ n_kin == <<c_k, c_i, c_n>>
 n_meter == <<c_m, c_e, c_t, c_e, c_r>>
 n_c1 == <<c_c, 49>>
 
+\* The universe: every item is the parsed form of one self-contained piece of definitions text (a definition
+\* inside a category parses to the category entry followed by the definition).
+C1 == CatD(n_c1, "Cat One")
 Pool == <<
-  (* 1 *) BaseU(n_s, <<>>),
-  (* 2 *) Cat(Doc(BaseU(n_m, n_meter), "the metre"), n_c1),
-  (* 3 *) PrefD(n_k, FALSE, 1000, <<>>),
-  (* 4 *) Doc(PrefD(n_m, FALSE, 3, <<>>), "milli"),
-  (* 5 *) Cat(Doc(UnitD(n_in, 2, <<n_m>>), "an inch"), n_c1),
-  (* 6 *) UnitD(n_min, 60, <<n_s>>),
-  (* 7 *) UnitD(<<c_x>>, 1, <<n_ks>>),
-  (* 8 *) UnitD(<<c_y>>, 11, <<n_min>>),
-  (* 9 *) UnitD(<<c_z>>, 13, <<n_ms, n_kin>>),
-  (* 10 *) QuantD(<<c_l, c_e, c_n>>, <<n_m>>),
-  (* 11 *) SubstD(<<c_s, c_u, c_b>>, <<Prop(<<c_p, 49>>, <<c_o, 49>>, 2, <<n_m>>, <<c_i, 49>>, 3, <<n_s>>),
-                                        Prop(<<c_p, 50>>, <<c_p, 50>>, 5, <<<<c_p, 49>>>>, <<c_c, 50>>, 1, <<>>)>>),
-  (* 12 *) CatD(n_c1, "Cat One"),
-  (* 13 *) UnitD(n_ks, 5, <<n_s>>),
-  (* 14 *) BaseU(n_k, <<>>),
-  (* 15 *) UnitD(<<c_w>>, 1, <<n_meter, n_s>>),
-  (* 16 *) QuantD(<<c_a, c_r>>, <<<<c_l, c_e, c_n>>, <<c_l, c_e, c_n>>>>),
-  (* 17 *) PrefD(<<c_k, c_i>>, TRUE, 1024, <<>>),
-  (* 18 *) PrefD(<<c_q>>, FALSE, 1, <<n_k>>),
-  (* 19 *) UnitD(<<c_t>>, 7, <<<<c_l, c_e, c_n>>>>),
-  (* 20 *) SubstD(<<c_z, c_e, c_r, c_o>>, <<Prop(<<c_p, 51>>, <<c_p, 51>>, 0, <<n_m>>, <<c_c, 51>>, 1, <<>>)>>)
+  (* 1 *) <<BaseU(n_s, <<>>)>>,
+  (* 2 *) <<C1, Cat(Doc(BaseU(n_m, n_meter), "the metre"), n_c1)>>,
+  (* 3 *) <<PrefD(n_k, FALSE, 1000, <<>>)>>,
+  (* 4 *) <<Doc(PrefD(n_m, FALSE, 3, <<>>), "milli")>>,
+  (* 5 *) <<C1, Cat(Doc(UnitD(n_in, 2, <<n_m>>), "an inch"), n_c1)>>,
+  (* 6 *) <<UnitD(n_min, 60, <<n_s>>)>>,
+  (* 7 *) <<UnitD(<<c_x>>, 1, <<n_ks>>)>>,
+  (* 8 *) <<UnitD(<<c_y>>, 11, <<n_min>>)>>,
+  (* 9 *) <<UnitD(<<c_z>>, 13, <<n_ms, n_kin>>)>>,
+  (* 10 *) <<QuantD(<<c_l, c_e, c_n>>, <<n_m>>)>>,
+  (* 11 *) <<SubstD(<<c_s, c_u, c_b>>, <<Prop(<<c_p, 49>>, <<c_o, 49>>, 2, <<n_m>>, <<c_i, 49>>, 3, <<n_s>>),
+                                        Prop(<<c_p, 50>>, <<c_p, 50>>, 5, <<<<c_p, 49>>>>, <<c_c, 50>>, 1, <<>>)>>)>>,
+  (* 12 *) <<C1>>,
+  (* 13 *) <<UnitD(n_ks, 5, <<n_s>>)>>,
+  (* 14 *) <<BaseU(n_k, <<>>)>>,
+  (* 15 *) <<UnitD(<<c_w>>, 1, <<n_meter, n_s>>)>>,
+  (* 16 *) <<QuantD(<<c_a, c_r>>, <<<<c_l, c_e, c_n>>, <<c_l, c_e, c_n>>>>)>>,
+  (* 17 *) <<PrefD(<<c_k, c_i>>, TRUE, 1024, <<>>)>>,
+  (* 18 *) <<PrefD(<<c_q>>, FALSE, 1, <<n_k>>)>>,
+  (* 19 *) <<UnitD(<<c_t>>, 7, <<<<c_l, c_e, c_n>>>>)>>,
+  (* 20 *) <<SubstD(<<c_z, c_e, c_r, c_o>>, <<Prop(<<c_p, 51>>, <<c_p, 51>>, 0, <<n_m>>, <<c_c, 51>>, 1, <<>>)>>)>>
 >>
-
-PoolIdx(d) == CHOOSE i \in DOMAIN Pool : Pool[i] = d
-PoolDefs == {Pool[i] : i \in PoolSel}
 
 RECURSIVE SubsetsUpTo(_, _)
 SubsetsUpTo(D, k) ==
@@ -77,25 +77,30 @@ SubsetsUpTo(D, k) ==
 RECURSIVE PermSeqs(_)
 PermSeqs(D) == IF D = {} THEN {<<>>} ELSE UNION {{<<d>> \o p : p \in PermSeqs(D \ {d})} : d \in D}
 
+\* all ways of cutting a sequence into 1..MaxFiles non-empty files
 Splits(q) ==
   LET n == Len(q) IN
   {<<q>>}
   \cup (IF MaxFiles >= 2 THEN {<<SubSeq(q, 1, i), SubSeq(q, i + 1, n)>> : i \in 1..(n - 1)} ELSE {})
-  \cup (IF MaxFiles >= 3 THEN {<<SubSeq(q, 1, i), SubSeq(q, i + 1, j), SubSeq(q, j + 1, n)>> :
-                                  i \in 1..(n - 2), j \in 2..(n - 1)} \cap
-                               {<<SubSeq(q, 1, i), SubSeq(q, i + 1, j), SubSeq(q, j + 1, n)>> :
-                                  i \in 1..(n - 2), j \in {jj \in 2..(n - 1) : TRUE}}
+  \cup (IF MaxFiles >= 3 THEN UNION {{<<SubSeq(q, 1, i), SubSeq(q, i + 1, j), SubSeq(q, j + 1, n)>> :
+                                          j \in (i + 1)..(n - 1)} : i \in 1..(n - 2)}
         ELSE {})
 
-DefSets == {D \in SubsetsUpTo(PoolDefs, MaxDefs) : D # {} /\ UniquelyNamed(D)}
-MCInitFiles == UNION {UNION {Splits(p) : p \in PermSeqs(D)} : D \in DefSets}
-MCBaseNames == {Pool[i].name : i \in {j \in DOMAIN Pool : Pool[j].kind = "base"}}
+DefsOfItems(I) == UNION {Range(Pool[i]) : i \in I}
+ItemSets == {I \in SubsetsUpTo(PoolSel, MaxDefs) : I # {} /\ UniquelyNamed(DefsOfItems(I))}
+\* a file of items -> the list its text parses to
+RECURSIVE ParseFile(_)
+ParseFile(f) == IF f = <<>> THEN <<>> ELSE Pool[Head(f)] \o ParseFile(Tail(f))
+MCInitCase(l, f) ==
+  \E I \in ItemSets : \E p \in PermSeqs(I) : \E lbl \in Splits(p) :
+     /\ l = lbl
+     /\ f = [i \in DOMAIN lbl |-> ParseFile(lbl[i])]
+MCBaseNames == UNION {{d.name : d \in {x \in Range(Pool[i]) : x.kind = "base"}} : i \in DOMAIN Pool}
 
 ASSUME PrintT(<<"POOL", ToJson(Pool)>>)
 
 \* ---- what the generator prints
-IdxFiles(fs) == [i \in DOMAIN fs |-> [j \in DOMAIN fs[i] |-> PoolIdx(fs[i][j])]]
-EmitCase == phase = "files" => PrintT(<<"CASE", IdxFiles(files)>>)
+EmitCase == phase = "files" => PrintT(<<"CASE", label>>)
 
 DimJson(d) == {[u |-> b, e |-> d[b]] : b \in {x \in BaseNames : d[x] # 0}}
 NumJson(v) == [n |-> v.n, q |-> v.q, d |-> DimJson(v.d)]
@@ -105,7 +110,7 @@ BodyJson(b) == b
 PropsJson(ps) == {[name |-> k, inp |-> NumJson(ps[k].inp), iname |-> ps[k].iname, out |-> NumJson(ps[k].out),
                    oname |-> ps[k].oname] : k \in DOMAIN ps}
 DbJson ==
-  [set |-> {PoolIdx(d) : d \in defset},
+  [set |-> defset,
    base |-> db.base,
    longs |-> MapJson(db.longs, IdF),
    units |-> MapJson(db.units, NumJson),
@@ -124,5 +129,5 @@ EmitDb == Done => PrintT(<<"DB", ToJson(DbJson)>>)
 
 \* FixedPoint is asserted where every identifier has one reading; elsewhere a failure is only counted
 FixedPointScoped == Ambiguous \/ FixedPoint
-CountAmbiguous == (Done /\ Ambiguous /\ ~FixedPoint) => PrintT(<<"AMBIG", {PoolIdx(d) : d \in defset}>>)
+CountAmbiguous == (Done /\ Ambiguous /\ ~FixedPoint) => PrintT(<<"AMBIG", Cardinality(defset)>>)
 =============================================================================
